@@ -202,7 +202,8 @@ def h_edits(ctx):
         tail = {"python": ["", "", "def unrelated_tail(value):", "    s = []", "    out = {}", "    result = 0", "    it = None", "    return value"],
                 "typescript": ["", "/* helpers */", "function unrelatedTail(value: string): string {", "  return value;", "}"],
                 "javascript": ["", "/* helpers */", "function unrelatedTail(value) {", "  return value;", "}"],
-                "rust": ["", "/* helpers */", "fn unrelated_tail(value: String) -> String {", "    value", "}"]}[lang]
+                "rust": ["", "/* helpers */", "fn unrelated_tail(value: String) -> String {", "    value", "}", "",
+                         "mod legacy_tail {", "    use std::net::TcpStream;", "", "    pub fn check(addr: &str) -> bool {", "        TcpStream::connect(addr).is_ok()", "    }", "}"]}[lang]
         new = "\n".join(lines + tail) + "\n"
     edited = dict(files)
     edited[main] = new
